@@ -306,9 +306,10 @@ def _generic_grid_cls(kind):
 
 
 def _fill_generic(g, kind, body, rng):
-    """random body-fixed marker offsets (asymmetric cloud, |offset| <~ body radius), as a derived class would"""
+    """random body-fixed marker offsets (asymmetric cloud, |offset| <= body radius), as a derived class would"""
     rad = float(np.asarray(body.radius).reshape(-1)[0])
-    g.local_frame_relative_position_field[...] = rng.uniform(-1, 1, g.local_frame_relative_position_field.shape) * rad
+    shp = g.local_frame_relative_position_field.shape
+    g.local_frame_relative_position_field[...] = rng.uniform(-1, 1, shp) * rad / np.sqrt(shp[0])  # |offset| <= rad
     g.local_frame_relative_position_field[:, 0] *= 0.0  # one marker on the body centre
     g.compute_lag_grid_position_field()
     g.compute_lag_grid_velocity_field()
